@@ -1462,6 +1462,18 @@ def main(ctx):
         "tags": list(TAGS),
         "tag_classes": "by EPSG code; 'none' is its own class; custom projections: which projection (laeaA / laeaB)",
         "non_epsg_slice_tags": list(SUB_TAGS),
+        "reduced_tags_of_add_on_slices": list(R_TAGS),
+        "stale_id_wkt": "WKT2 of EPSG:32633 with the central meridian edited 15 -> 16.5 deg, trailing ID[\"EPSG\",32633] kept "
+                        "(class 'stale32633': pyproj to_epsg() is None and it is != EPSG:32633)",
+        "geometry_kinds2": list(GEOM_KINDS2),
+        "nary_length_4": "base tag three times + odd one at each position (all tags); patterns a,b,a,b and a,a,b,b (reduced tags)",
+        "warm": "earlier call on operands with the same coordinates under each reduced tag pair, then each reduced tag pair; "
+                "unchanged operands are the same instances; lazy-read variant after 3 warm pairs",
+        "entry_point_aliases": [list(a) for a in ALIASES],
+        "convert_grid": f"{CV_N}x{CV_N} px of {CV_RES} m at ({CV_X0}, {CV_Y1}), tiles of {CV_TILE} px; grid tags {list(CV_GRID_TAGS)}; "
+                        f"region tags {list(CV_Q_TAGS)}; regions (pixel coordinates) {CV_PIX}",
+        "convert_operations": list(CV_OPS),
+        "crowded (thorough)": f"{len(CROWD_CODES) + 20} further live CRS objects",
         "non_epsg_projections": PROJ4,
         "tag_state_+e": "`.epsg` and `to_epsg()` evaluated on the operand's own CRS object inside run() before the call; "
                         "plain tags of that slice get a new CRS object per case",
@@ -1492,6 +1504,11 @@ def main(ctx):
         "accepted on any ValueError and counted as trivial",
         "the property quantifies over operations combining two or more objects: streams of length 0 and 1 are not enumerated",
         "EPSG class of a result CRS is taken from a fresh pyproj.CRS built from str(result.crs)",
+        "converting operations (region in another CRS): judged against the answer for the same region expressed in the grid's "
+        "CRS with a fresh pyproj transformer (BoundingBox queries: against the box outline carried to the grid, not judged "
+        "when an edge lies within 1e-3 px of a decision boundary); an exception raised for a region in ANOTHER CRS is an "
+        "observation (refusing is not mixing), an exception for the SAME CRS in another spelling is a violation; CRS-less "
+        "regions are not enumerated there (project / tiles(BoundingBox) document a pixel-plane reading)",
         "discovered operations without a hand-written reference are judged by the generic clauses only (mismatch => "
         "ValueError; same class => no ValueError, result tagged with the operands' CRS)",
     ]
